@@ -127,6 +127,25 @@ def run(ctx):
                     fail('json_notes_depend_on_context', {'cat': c, 'name': name, 'list': lst, 'client': client}, g, ref_json)
             lines.append(rc.report_line(peer, client, imp['banner']))
             expect.append(('report', imp, (c, name)))
+    # history independence: after a scan that edits rating state (Terrapin marks on ChaCha / CBC / EtM entries), a fresh scan and
+    # --lookup must still show the same notes for every name
+    before = {}
+    probe = [(c, n, k) for c, n, k in subjects if n == k][:40] + [('enc', 'chacha20-poly1305@openssh.com', 'chacha20-poly1305@openssh.com'), ('enc', 'aes256-cbc', 'aes256-cbc'),
+                                                                    ('mac', 'hmac-sha2-256-etm@openssh.com', 'hmac-sha2-256-etm@openssh.com')]
+    for c, name, key in probe:
+        ref = rc.impl_report(quiet_peer(c, [name]))
+        before[(c, name)] = ([x[1] for x in ref['algs'][c] if x[0] == name], [jn for n_, jn in ref['json'][c] if n_ == name], lookup_notes([name]).get((c, name)))
+    polluter = rc.mk_peer(['curve25519-sha256'], ['ssh-ed25519'], ['chacha20-poly1305@openssh.com', 'aes256-cbc', 'aes128-cbc', '3des-cbc'],
+                          ['hmac-sha2-256-etm@openssh.com', 'hmac-sha1-etm@openssh.com', 'hmac-md5-etm@openssh.com'])
+    rc.run_output(polluter, fresh=True)
+    rc.run_output(polluter, fresh=False, use_json=True, batch=False)
+    for c, name, key in probe:
+        ref = rc.impl_report(quiet_peer(c, [name]))
+        after = ([x[1] for x in ref['algs'][c] if x[0] == name], [jn for n_, jn in ref['json'][c] if n_ == name], lookup_notes([name]).get((c, name)))
+        cov.add((c, name, 'after-other-scan'), True, tags=['history'])
+        if after != before[(c, name)]:
+            fail('notes_depend_on_earlier_scan', {'cat': c, 'name': name, 'earlier_scan': {'enc': polluter['encS'], 'mac': polluter['macS']}},
+                 {'text': after[0], 'json': after[1], 'lookup': after[2]}, {'text': before[(c, name)][0], 'json': before[(c, name)][1], 'lookup': before[(c, name)][2]})
     # unknown names
     for shape in ('plain', 'at', 'long', 'gssunk', 'eq'):
         for c in rc.CATS:
